@@ -20,17 +20,20 @@ def st(name, nq, nt, variant=""):
 
 P = "Zog.Props."
 COMMON = [P + "facts_ok", P + "engine_is_spec"]
+# cross-cutting regenerated facts: obligations of every property whose clauses rely on them
+POOLED = [P + "recycled_objects_start_clean"]      # nothing survives in recycled contexts / issues / path builders
+READONLY = [P + "executions_write_no_schema", P + "closures_are_stateless"]  # schemas and their closures keep no state
 
 PROPS = {
  "C01": {
   "module": "Zog.Props.C01",
-  "theorems": COMMON + [P + "C01." + t for t in ["success_means_valid_spec", "success_means_valid", "success_means_valid_all", "validU_at_prim", "prim_no_issue_sat", "complex_tests_hold", "success_means_every_visit_clean", "visits_only_append", "engine_success_iff"]] + ["Zog.Spec.validU_of_clean", "Zog.Spec.proc_cleanLocal"],
+  "theorems": READONLY + POOLED + COMMON + [P + "C01." + t for t in ["success_means_valid_spec", "success_means_valid", "success_means_valid_all", "validU_at_prim", "prim_no_issue_sat", "complex_tests_hold", "success_means_every_visit_clean", "visits_only_append", "engine_success_iff"]] + ["Zog.Spec.validU_of_clean", "Zog.Spec.proc_cleanLocal"],
   "streams": [eng(2500, 150000), eng(2000, 100000, "catch"), eng(2500, 100000, "nearsuccess"), eng(2000, 100000, "retype"), st("http", 700, 12000), st("helpers", 600, 20000)],
   "trusted_base": ENGINE_TB, "assumptions": ENGINE_ASSUME,
  },
  "C02": {
   "module": "Zog.Props.C02",
-  "theorems": COMMON + [P + "C02." + t for t in ["all_failing_tests_reported", "issue_code_and_path", "satisfied_no_issue", "missing_required_one_issue", "uncoercible_one_issue", "slice_uncoercible", "struct_uncoercible", "nil_iff_no_issue", "no_issue_iff_no_violation_spec", "no_issue_iff_no_violation", "no_issue_iff_no_violation_all", "violation_is_reported", "no_violation_at_prim", "engine_reports_spec_issues"]] + ["Zog.Spec.clean_iff", "Zog.Spec.noViolFields_iff", "Zog.Spec.primBody_clean_iff", "Zog.Spec.cleanU_iff"],
+  "theorems": POOLED + COMMON + [P + "C02." + t for t in ["all_failing_tests_reported", "issue_code_and_path", "satisfied_no_issue", "missing_required_one_issue", "uncoercible_one_issue", "slice_uncoercible", "struct_uncoercible", "nil_iff_no_issue", "no_issue_iff_no_violation_spec", "no_issue_iff_no_violation", "no_issue_iff_no_violation_all", "violation_is_reported", "no_violation_at_prim", "engine_reports_spec_issues"]] + ["Zog.Spec.clean_iff", "Zog.Spec.noViolFields_iff", "Zog.Spec.primBody_clean_iff", "Zog.Spec.cleanU_iff"],
   "streams": [eng(3000, 150000), eng(2000, 100000, "catch"), eng(1200, 60000, "deep")],
   "trusted_base": ENGINE_TB, "assumptions": ENGINE_ASSUME,
  },
@@ -49,7 +52,7 @@ PROPS = {
  },
  "C05": {
   "module": "Zog.Props.C05",
-  "theorems": COMMON + [P + "C05." + t for t in ["catch_no_issue", "catch_dest", "catch_keeps_good_value", "catch_confined_spec", "catch_confined", "engine_catch_no_issue", "recycled_context_has_no_catch_state"]],
+  "theorems": POOLED + COMMON + [P + "C05." + t for t in ["catch_no_issue", "catch_dest", "catch_keeps_good_value", "catch_confined_spec", "catch_confined", "engine_catch_no_issue", "recycled_context_has_no_catch_state"]],
   "streams": [eng(3000, 150000), eng(2000, 100000, "catch")],
   "trusted_base": ENGINE_TB, "assumptions": ENGINE_ASSUME,
  },
@@ -64,7 +67,7 @@ PROPS = {
  },
  "C07": {
   "module": "Zog.Props.C07",
-  "theorems": [P + "C07." + t for t in ["constructors_complete", "reinit_independent_of_dirt", "reinit_is_fresh", "skips_first", "acquire_ownedAcc", "acquireMany_ownedAcc", "step_owned", "ownership_invariant"]],
+  "theorems": [P + "C07.schemas_carry_nothing_over"] + [P + "C07." + t for t in ["constructors_complete", "reinit_independent_of_dirt", "reinit_is_fresh", "skips_first", "acquire_ownedAcc", "acquireMany_ownedAcc", "step_owned", "ownership_invariant"]],
   "streams": [st("pool", 800, 40000)],
   "trusted_base": ["regenerated (go/ast): Gen.ctorAssigns / Gen.typeFields (which fields every pooled constructor assigns), Gen.collectMapSkipsFirst",
                    "modelled, not verified: lean/Zog/Pool.lean (reinit of recycled records; issue-object identities over call/collect histories)",
@@ -83,19 +86,19 @@ PROPS = {
  },
  "C09": {
   "module": "Zog.Props.C09",
-  "theorems": COMMON + [P + "C09." + t for t in ["visit_order_is_permutation", "visit_order_same_length", "visit_order_mem", "engine_is_spec_for_every_order", "single_field_order_independent", "C09_partial_spec", "C09_partial", "success_order_independent", "success_order_independent_all", "full_statement_false", "message_independent_of_param_order"]] + ["Zog.Spec.proc_success_order_indep", "Zog.Spec.fieldLoop_perm_clean"],
+  "theorems": READONLY + POOLED + COMMON + [P + "C09." + t for t in ["visit_order_is_permutation", "visit_order_same_length", "visit_order_mem", "engine_is_spec_for_every_order", "single_field_order_independent", "C09_partial_spec", "C09_partial", "success_order_independent", "success_order_independent_all", "full_statement_false", "message_independent_of_param_order"]] + ["Zog.Spec.proc_success_order_indep", "Zog.Spec.fieldLoop_perm_clean"],
   "streams": [st("order", 2500, 60000), eng(2000, 60000)],
   "trusted_base": ENGINE_TB, "assumptions": ENGINE_ASSUME,
  },
  "C12": {
   "module": "Zog.Props.C12",
-  "theorems": COMMON + [P + "C12." + t for t in ["tests_run_once_in_order", "posts_in_order_stop_at_first_error", "post_error_one_issue", "plain_error_issue_at_node_path", "posts_gated_on_no_issue", "posts_run_when_clean", "post_error_not_caught", "custom_called_with_value", "custom_mismatch_no_call", "pre_mismatch_skips", "pre_error_skips", "pre_ok_runs_inner", "pre_validate", "engine_log_is_spec_log", "callbacks_see_their_own_path", "exec_ctx_resets_values", "ctx_get_exactly_passed", "ctx_get_absent_key", "ctx_last_value_wins", "ctx_other_key_untouched", "ctx_without_reset_leaks"]] + ["Zog.Spec.proc_ev", "Zog.CtxVals.get_exactly_passed"],
+  "theorems": POOLED + COMMON + [P + "C12." + t for t in ["tests_run_once_in_order", "posts_in_order_stop_at_first_error", "post_error_one_issue", "plain_error_issue_at_node_path", "posts_gated_on_no_issue", "posts_run_when_clean", "post_error_not_caught", "custom_called_with_value", "custom_mismatch_no_call", "pre_mismatch_skips", "pre_error_skips", "pre_ok_runs_inner", "pre_validate", "engine_log_is_spec_log", "callbacks_see_their_own_path", "exec_ctx_resets_values", "ctx_get_exactly_passed", "ctx_get_absent_key", "ctx_last_value_wins", "ctx_other_key_untouched", "ctx_without_reset_leaks"]] + ["Zog.Spec.proc_ev", "Zog.CtxVals.get_exactly_passed"],
   "streams": [eng(3000, 150000), eng(2000, 100000, "catch"), eng(2000, 100000, "pre"), eng(1500, 60000, "api")],
   "trusted_base": ENGINE_TB, "assumptions": ENGINE_ASSUME,
  },
  "C13": {
   "module": "Zog.Props.C13",
-  "theorems": COMMON + [P + "C13." + t for t in ["prim_modes_agree", "prim_modes_agree_with_posts", "ptr_modes_agree", "same_field_keys", "custom_modes_agree", "coerce_own_type", "both_modes_refine", "parse_validate_agree_spec", "parse_validate_agree", "parse_validate_same_issue_map", "pres_prim_own"]] + ["Zog.Spec.agree", "Zog.Spec.fieldLoop_agree", "Zog.Spec.sliceLoop_agree"],
+  "theorems": READONLY + POOLED + COMMON + [P + "C13." + t for t in ["prim_modes_agree", "prim_modes_agree_with_posts", "ptr_modes_agree", "same_field_keys", "custom_modes_agree", "coerce_own_type", "both_modes_refine", "parse_validate_agree_spec", "parse_validate_agree", "parse_validate_same_issue_map", "pres_prim_own"]] + ["Zog.Spec.agree", "Zog.Spec.fieldLoop_agree", "Zog.Spec.sliceLoop_agree"],
   "streams": [st("modes", 3000, 150000), eng(2000, 60000)],
   "trusted_base": ENGINE_TB, "assumptions": ENGINE_ASSUME,
  },
@@ -119,7 +122,7 @@ PROPS = {
  },
  "C16": {
   "module": "Zog.Props.C16",
-  "theorems": [P + "C16." + t for t in ["clone_copies", "heap_refines_pure", "pure_step_frame", "heap_step_frame", "pick_fields", "omit_fields", "union_fields", "merge_tests", "union_assoc", "merge3_tests"]],
+  "theorems": READONLY + [P + "C16." + t for t in ["clone_copies", "heap_refines_pure", "pure_step_frame", "heap_step_frame", "pick_fields", "omit_fields", "union_fields", "merge_tests", "union_assoc", "merge3_tests"]],
   "streams": [st("helpers", 1500, 100000)],
   "trusted_base": ["modelled, not verified: lean/Zog/Helpers.lean mirrors struct_helpers.go (cloneShallow/Pick/Omit/Extend/Merge) and StructSchema.Test/PostTransform with Go slice semantics (in-place append while len < cap, arbitrary growth policy)",
                    "regenerated (go/ast): Gen.cloneCopies — cloneShallow gives the derived schema its own tests/postTransforms arrays",
@@ -144,14 +147,14 @@ PROPS = {
  },
  "C10": {
   "module": "Zog.Props.C10",
-  "theorems": [P + "C10." + t for t in ["get_append", "inv_add", "issue_map_well_formed", "root_key", "nonroot_key", "render_is_joinSpec", "key_source_tag_first", "tagName_plain", "tagName_no_comma", "tagName_idem", "key_source_tag_without_name", "key_zog_tag_next", "key_schema_key_last", "key_validate", "issue_path_override", "sanitize_keys", "sanitize_list_length", "sanitize_get", "issues_addressed_at_every_depth", "node_files_below_itself", "request_source_as_documented"]] + ["Zog.Spec.proc_at"],
+  "theorems": POOLED + [P + "C10." + t for t in ["get_append", "inv_add", "issue_map_well_formed", "root_key", "nonroot_key", "render_is_joinSpec", "key_source_tag_first", "tagName_plain", "tagName_no_comma", "tagName_idem", "key_source_tag_without_name", "key_zog_tag_next", "key_schema_key_last", "key_validate", "issue_path_override", "sanitize_keys", "sanitize_list_length", "sanitize_get", "issues_addressed_at_every_depth", "node_files_below_itself", "request_source_as_documented"]] + ["Zog.Spec.proc_at"],
   "streams": [st("path", 3000, 200000), eng(2500, 100000), eng(1200, 60000, "deep"), eng(300, 6000, "long"), st("front", 400, 10000), st("http", 700, 12000)],
   "trusted_base": ["modelled, not verified: lean/Zog/Path.lean mirrors internals/PathBuilder.go String and internals/Issues.go ErrsMap.Add; keyFor mirrors internals/DataProviders.go GetKeyFromField"] + ENGINE_TB,
   "assumptions": ["no issue is addressed to the reserved key `$first` (IssuePath(\"$first\") is outside the property)"] + ENGINE_ASSUME,
  },
  "C11": {
   "module": "Zog.Props.C11",
-  "theorems": [P + "C11." + t for t in ["catalogue_complete_en", "catalogue_complete_es", "catalogue_complete_default", "catalogue_described", "catalogue_well_formed", "user_tests_complete_en", "user_tests_complete_es", "user_tests_complete_default", "user_tests_described", "no_value_placeholder", "test_message_wins", "exec_formatter_next", "global_formatter_last", "issue_of_test_described", "i18n_uses_ctx_lang", "i18n_default_lang", "last_installation_wins", "reinstall_resets_lang_key", "lang_value_not_a_string", "issue_invariants_lift", "every_issue_has_a_message"]] + ["Zog.Spec.proc_inv"],
+  "theorems": POOLED + [P + "C11." + t for t in ["catalogue_complete_en", "catalogue_complete_es", "catalogue_complete_default", "catalogue_described", "catalogue_well_formed", "user_tests_complete_en", "user_tests_complete_es", "user_tests_complete_default", "user_tests_described", "no_value_placeholder", "test_message_wins", "exec_formatter_next", "global_formatter_last", "issue_of_test_described", "i18n_uses_ctx_lang", "i18n_default_lang", "last_installation_wins", "reinstall_resets_lang_key", "lang_value_not_a_string", "issue_invariants_lift", "every_issue_has_a_message"]] + ["Zog.Spec.proc_inv"],
   "streams": [st("msg", 1, 1), eng(2500, 100000, "fmt"), st("http", 700, 12000)],
   "trusted_base": ["regenerated on every run (run-time dump of the compiled maps and of every built-in test): lean/Zog/Gen/Tables.lean, lean/Zog/Gen/Catalogue.lean",
                    "modelled, not verified: lean/Zog/Msg.lean mirrors conf/issueFormatConf.go NewDefaultFormatter and i18n/i18n.go; strings.ReplaceAll and fmt %v are external"] + ENGINE_TB,
